@@ -319,12 +319,14 @@ def plan(tier):
         return [("deep3", ["deep3"], FAMILIES, "small", ["same"], 1, 0),
                 ("alias4", ["alias4"], FAMILIES, "none", ["same"], 16, s % 16),
                 ("pkgdir", ["pkgdir"], ["path", "modimp"], "none", ["same"], 4, s % 4),
-                ("chain3", CHAIN_TREES, ["chain3"], "none", ["same"], 1, 0)]
+                ("chain3", CHAIN_TREES, ["chain3"], "none", ["same"], 1, 0),
+                ("inout", ["io4"], ["inout"], "none", ["same"], 1, 0)]
     return [("t3", ["deep3", "wide3", "dir3"], FAMILIES, "none", ["same"], 1, 0),
             ("wide3g", ["wide3"], ["list", "imp1"], "none", ["all"], 1, 0),
             ("alias4", ["alias4"], FAMILIES, "none", ["same"], 1, 0),
             ("pkgdir", ["pkgdir"], ["path", "imp1", "modimp", "chain"], "none", ["same"], 1, 0),
             ("chain3", CHAIN_TREES, ["chain3"], "none", ["same"], 1, 0),
+            ("inout", ["io4"], ["inout"], "none", ["same"], 1, 0),
             ("mix4", ["mix4"], FAMILIES, "none", ["same"], 2, s % 2),
             ("full6", ["full6"], FAMILIES, "none", ["same"], 12, s % 12),
             ("full7", ["full7"], FAMILIES, "none", ["same"], 32, s % 32),
@@ -346,23 +348,38 @@ def spec_to_impl(tier, ev, verd, stats):
         vlib.log("C13: TLC %s: %d configurations in %.1fs" % (name, len(r.replay), r.wall))
     ev.extra["tlc_runs"] = parts
     # anti-vacuity: every family, every lookup rule / outcome class
-    fam_count, rule_count, chain_count = {}, {}, {}
+    fam_count, rule_count, chain_count, ivo_count = {}, {}, {}, {}
     for c in cases:
         fam, _, order = c["fam"].partition(":")
         fam_count[fam] = fam_count.get(fam, 0) + 1
         k = rule_key(c["rule"])
         rule_count[k] = rule_count.get(k, 0) + 1
+        if c["exp"]["k"] in ("item", "local") and c["rule"]["first"] == "import" and c["ivo"]["t"] != "none":
+            # the reference is decided by an import although enclosing scopes DECLARE the same name (spec: InnerVsOuter)
+            kind = "module" if len(c["ref"]) > 1 else c["ref"][0]
+            where = "module-level" if c["ivo"]["t"] == "m" else "block-depth-%d" % c["ivo"]["i"]
+            for dk in c["ivo"]["kinds"]:
+                key = "%s:import@%s:outer-%s" % (kind, where, {"item": "module-item", "mod": "child-module", "local": "local"}[dk])
+                ivo_count[key] = ivo_count.get(key, 0) + 1
         if fam == "chain3" and c["exp"]["k"] == "item":
             # which of the names the chain introduces are also reachable from the enclosing scope (spec: OuterNamesakes)
             lvl = "module" if c["imps"][0]["sc"]["t"] == "m" else "block"
             for nm in (sorted(c["outer"]) or ["none"]):
                 key = "%s:%s:outer-%s" % (order, lvl, nm)
                 chain_count[key] = chain_count.get(key, 0) + 1
-    missing = [f for f in FAMILIES + ["disc", "chain3", "chain2"] if not fam_count.get(f)] + [r for r in REQUIRED_RULES if not rule_count.get(r)]
+    missing = [f for f in FAMILIES + ["disc", "chain3", "chain2", "inout"] if not fam_count.get(f)] + [r for r in REQUIRED_RULES if not rule_count.get(r)]
     # chain-3 x all six orders x same-named module/item in the enclosing scope for each introduced name (block level;
     # the enclosing scope of a module is the global scope, which holds none of these names), and without any
     missing += ["chain3 " + k for k in ["%s:block:outer-%s" % (o, nm) for o in CHAIN_ORDERS for nm in ("a", "b", "f", "none")]
                 + ["%s:module:outer-none" % o for o in CHAIN_ORDERS] if not chain_count.get(k)]
+    # inner import against outer declaration: every item kind, import in the function body (depth 1) and in a
+    # nested block (depth 2), outer declaration at module level (fn / const / child module) and as a local
+    need = []
+    for kind, modlevel in (("f", "module-item"), ("g", "module-item"), ("k", "module-item"), ("module", "child-module")):
+        need += ["%s:import@block-depth-1:outer-%s" % (kind, modlevel), "%s:import@block-depth-2:outer-%s" % (kind, modlevel),
+                 "%s:import@block-depth-2:outer-local" % kind, "%s:import@block-depth-3:outer-local" % kind]
+    missing += ["inner-import-vs-outer-declaration " + k for k in need if not ivo_count.get(k)]
+    ev.extra["inner_import_vs_outer_declaration"] = ivo_count
     if missing:
         raise vlib.ToolError("reference forms / lookup rules never generated (vacuous run): %s (have %s)" % (missing, sorted(rule_count)))
     ev.extra["chain3_classes"] = chain_count
@@ -488,12 +505,12 @@ def random_config(rng):
     locals_ = []
     if rng.random() < 0.3:
         for i in rng.sample([1, 2, 3], rng.choice([1, 1, 2])):
-            locals_.append({"i": i, "n": "k", "param": i == 1 and rng.random() < 0.5})
+            locals_.append({"i": i, "n": rng.choice(["k", "k", "f", "a", "b"]), "param": i == 1 and rng.random() < 0.5})
     depth = rng.randint(1, 3)
     x = rng.random()
     t, name = pick_target()
     if locals_ and rng.random() < 0.6:
-        name = "k"
+        name = rng.choice([l["n"] for l in locals_ if l["n"] in ("f", "k")] or ["k"])
     mod_aliases = [a for a in aliases if a in NAMES3]
     item_aliases = [a for a in aliases if a not in NAMES3]
     up = [im for im in imps if im["sc"]["t"] == "m" and site and P(im["sc"]["p"]) == site[:len(P(im["sc"]["p"]))]
@@ -560,8 +577,10 @@ def impl_to_spec(tier, ev, verd, stats):
     guard = 0
     while start < len(events):
         guard += 1
-        if guard > 12:
-            raise vlib.ToolError("too many rejected trace events; see replay files")
+        if guard > 8:
+            # many rejected events (each is already reported as a violation): stop validating, never hide them
+            ev.extra["trace_events_not_validated"] = len(events) - start
+            break
         part = events[start:]
         vlib.write_ndjson(path, part)
         r = vlib.validate_trace("TraceScopes", "TraceScopes.cfg", path, timeout=1500, heap="6g")
